@@ -272,11 +272,16 @@ def call_class(cost_obj, X, beta, m, n_train=None):
     scale = beta / (2 * p * math.log(n_train))
     det = PELT(cost=cost_obj, penalty_scale=scale, min_segment_length=m)
     train = X if n_train == n else np.vstack([X, X, X])[:n_train]
+    df = pd.DataFrame(X)
+    # history: an earlier fit on data of another length (other penalty) followed by scoring the same frame must leave no trace
+    det.fit(pd.DataFrame(np.vstack([X, X])[: n + 3]))
+    det.transform_scores(df)
+    det.predict(df)
     det.fit(pd.DataFrame(train))
-    y = det.predict(pd.DataFrame(X))
+    ts = np.asarray(det.transform_scores(df), dtype=float).reshape(-1)        # first call after the refit: nothing may be reused
+    y = det.predict(df)
     cps = np.asarray(y).reshape(-1)
     attr = np.asarray(det.scores, dtype=float).reshape(-1)
-    ts = np.asarray(det.transform_scores(pd.DataFrame(X)), dtype=float).reshape(-1)
     return float(det.penalty_), ts, attr, cps
 
 
